@@ -168,3 +168,22 @@ func GetApproximatePercentageOfValue(value *big.Int, percentage float64) (r *big
   ensures  r != nil && fresh(r)
   assigns  nothing
 @*/
+
+// ---- C09 (agent Q): stop-watch calls used for logging only (storagePruningManager.removeFromDb) ----
+/*@
+func NewStopWatch() (sw *StopWatch)
+  trusted
+  ensures  fresh(sw)
+  assigns  nothing
+
+func (sw *StopWatch) GetMeasurements() (r []interface{})
+  trusted
+  assigns  nothing
+@*/
+
+// ---- C10 (agent Q): human-readable size for a log line (data/trie/hashesHolder) ----
+/*@
+func ConvertBytes(bytes uint64) (r string)
+  trusted
+  assigns  nothing
+@*/
